@@ -91,7 +91,10 @@ Definition c09_of (t : tree) : tree :=
 Definition ops : list (string * (tree -> tree)) := [
   ("c01", c01_of);
   ("c09", c09_of);
-  ("smin", fun t => L [I (smin (tRR t)); ofB (wrappable (tRR t)); I (table_depth (tRR t)); ofB (wrappable' (tRR t))]);
+  (* [cfg, R, W]: the same rendering as c01, for the UNGUARDED checker spec.fits (known-finding witnesses only;
+     no generator emits it) *)
+  ("fits_raw", fun t => enc false (render (tCfg (tNth t 0)) (tRR (tNth t 1)) ro0 (tZ (tNth t 2))));
+  ("smin", fun t => L [I (smin (tRR t)); ofB (wrappable (tRR t)); I (table_depth (tRR t))]);
   (* [s, fix]: Text.__rich_measure__ *)
   ("text_measure", fun t => ofM (text_measure (tB (tNth t 1)) (tStr (tNth t 0))));
   (* [s, fix, justify?, overflow?]: the lines of the text rendered at its own measured maximum *)
@@ -104,13 +107,13 @@ Definition ops : list (string * (tree -> tree)) := [
   (* [R, W, lines]: W >= smin r -> wrappable r -> fits *)
   ("spec.fits_dom", fun t =>
       let r := tRR (tNth t 0) in
-      ofB (if (smin r <=? tZ (tNth t 1)) && wrappable' r then fits_b (tZ (tNth t 1)) (tStrs (tNth t 2)) else true));
+      ofB (if (smin r <=? tZ (tNth t 1)) && wrappable r then fits_b (tZ (tNth t 1)) (tStrs (tNth t 2)) else true));
   ("spec.fits", fun t => ofB (fits_b (tZ (tNth t 0)) (tStrs (tNth t 1))));
   ("spec.meas_bounds", fun t => ofB (meas_bounds_b (tZ (tNth t 0)) (tM (tNth t 1))));
   (* [R, [mn,mx], lines at mx, lines at mn] *)
   ("spec.meas_sound_dom", fun t =>
       let r := tRR (tNth t 0) in
-      ofB (if wrappable' r then meas_sound_b (smin r) (tM (tNth t 1)) (tStrs (tNth t 2)) (tStrs (tNth t 3)) else true));
+      ofB (if wrappable r then meas_sound_b (smin r) (tM (tNth t 1)) (tStrs (tNth t 2)) (tStrs (tNth t 3)) else true));
   ("spec.text_meas", fun t => ofB (text_meas_b (tStr (tNth t 0)) (tM (tNth t 1))));
   ("spec.not_wrapped", fun t => ofB (not_wrapped_b (tStr (tNth t 0)) (tStrs (tNth t 1))))
 ].
